@@ -10,7 +10,10 @@ import (
 	"fmt"
 	"os"
 	"reflect"
+	"runtime"
+	"sync/atomic"
 	"testing"
+	"time"
 )
 
 type NondetVal struct {
@@ -42,7 +45,16 @@ var cur struct {
 	pos  int
 }
 
+// engineOnly kinds record decisions of the engine's scheduler / map iteration model; the native run
+// cannot consume them.
+func engineOnly(k string) bool {
+	return k == "sched" || k == "select" || (len(k) >= 8 && k[:8] == "maporder")
+}
+
 func next(kind string) uint64 {
+	for cur.pos < len(cur.vals) && engineOnly(cur.vals[cur.pos].K) {
+		cur.pos++
+	}
 	if cur.pos >= len(cur.vals) {
 		// values created after the last model fetch are unconstrained: default 0
 		cur.pos++
@@ -98,9 +110,40 @@ func Assume(c bool) {
 	}
 }
 
+// Assert: natively a failing assertion on the replay goroutine panics; on another goroutine (a
+// callback run by the code under test) it is recorded, that goroutine ends, and the replay goroutine
+// reports it at its next harness call.
 func Assert(c bool, msg string) {
-	if !c {
-		panic(assertFailed{msg})
+	if c {
+		return
+	}
+	if gid() != mainGID.Load() {
+		sideFailure.CompareAndSwap(nil, &msg)
+		runtime.Goexit()
+	}
+	panic(assertFailed{msg})
+}
+
+var mainGID atomic.Int64
+var sideFailure atomic.Pointer[string]
+
+func gid() int64 {
+	var buf [64]byte
+	n := runtime.Stack(buf[:], false)
+	// "goroutine 123 [running]:"
+	var id int64
+	for _, c := range buf[len("goroutine "):n] {
+		if c < '0' || c > '9' {
+			break
+		}
+		id = id*10 + int64(c-'0')
+	}
+	return id
+}
+
+func checkSide() {
+	if m := sideFailure.Load(); m != nil && gid() == mainGID.Load() {
+		panic(assertFailed{*m})
 	}
 }
 
@@ -280,6 +323,21 @@ func sameState(a, b reflect.Value, d int) bool {
 	panic("SameState: unsupported kind " + a.Kind().String())
 }
 
+// Yield lets every other goroutine run until it blocks (natively: a short sleep).
+func Yield() { time.Sleep(3 * time.Millisecond); checkSide() }
+
+// TimerDuration is the duration harnesses give to the timers of the code under test; natively
+// FireTimer waits long enough for such a timer to expire. Under the engine timers fire only when the
+// harness says so.
+const TimerDuration = 15 * time.Millisecond
+
+func TimerPending() bool { return true }
+func FireTimer() bool    { time.Sleep(3 * TimerDuration); checkSide(); return true }
+
+// Track registers an object graph for the engine's lockset (data race) analysis; RaceFree reports the result.
+func Track(obj any)   {}
+func RaceFree() bool { return true }
+
 const (
 	OrderInsertion = 0
 	OrderFwdRev    = 1
@@ -363,6 +421,8 @@ func usesMapOrder(vals []NondetVal) bool {
 
 func runOne(fn func([]int), args []int, vals []NondetVal) (res string) {
 	cur.vals, cur.pos = vals, 0
+	mainGID.Store(gid())
+	sideFailure.Store(nil)
 	defer func() {
 		p := recover()
 		switch p := p.(type) {
@@ -381,5 +441,6 @@ func runOne(fn func([]int), args []int, vals []NondetVal) (res string) {
 		}
 	}()
 	fn(args)
+	checkSide()
 	return
 }
